@@ -5,7 +5,7 @@ bool-valued), multi-element data, multi-line expressions, non-ASCII text in comm
 small rule set, and labels on both sides of the 16-byte header boundary of the Mesen format.
 Everything is drawn from the vlib.Rng handed in.  gen_program returns (main text, {extra file name: text}, tags)."""
 
-UNITS = [8, 8, 8, 8, 16, 3, 12, 1, 4, 5, 7]
+UNITS = [8, 8, 8, 16, 3, 12, 6, 24, 1, 4, 5, 7, 3, 12]
 WIDTHS = [1, 2, 3, 4, 5, 7, 8, 8, 8, 12, 16, 16, 24, 32, 64, 100]
 
 RULES = """#ruledef
@@ -256,12 +256,13 @@ def gen_program(rng):
         for _ in range(rng.range(2, 9)):
             if step == include_at and bank.outp is not None:
                 g.align(bank)
-                inc = ["; é included file", "IncL%d:" % g.n, "#d8 0x%x" % rng.range(0, 255), ".incs:", "#d8 %d, %d" % (rng.range(0, 255), rng.range(0, 255)),
-                       "IncK%d = %d" % (g.n, rng.range(0, 99))]
-                if g.room(bank, 24) and bank.unit in (8, 4, 1):
+                u = bank.unit
+                inc = ["; é included file", "IncL%d:" % g.n, "#d%d %d" % (u, rng.below(1 << u)), ".incs:",
+                       "#d%d %d, %d" % (u, rng.below(1 << u), rng.below(1 << u)), "IncK%d = %d" % (g.n, rng.range(0, 99))]
+                if g.room(bank, 3 * u):
                     extra["inc.asm"] = "\n".join(inc) + "\n"
                     g.lines.append('#include "inc.asm"')
-                    bank.pos += 24
+                    bank.pos += 3 * u
                     g.depth = 0
                     g.tags.add("include")
             step += 1
